@@ -52,19 +52,38 @@ import (
 // ---- generator switches ------------------------------------------------------
 // Values >= 2^63 for persisted unsigned fields. No `requires` clause excludes
 // them (only SaveMintQuote's ensures mentions mq.Amount < 2^63), so they are in
-// the input space of the contracts. Flip one to false once the corresponding
-// contract has a `requires` bounding the field.
-const (
-	vbHugeProofAmount    = true // cashu.Proof.Amount (SaveProofs, AddPendingProofs)
-	vbHugeSigAmount      = true // cashu.BlindedSignature.Amount
-	vbHugeMintExpiry     = true // storage.MintQuote.Expiry
-	vbHugeMeltExpiry     = true // storage.MeltQuote.Expiry
-	vbHugeMeltAmountMsat = true // storage.MeltQuote.AmountMsat
-	vbHugeKeysetFee      = true // storage.DBKeyset.InputFeePpk
+// the input space of the contracts; database/sql refuses a uint64 with the high
+// bit set, so the Save* call fails although the clause's condition holds. Set a
+// default to false once the contract bounds the field by a `requires` (or once
+// such an error is accepted as a storage fault). For experiments each switch can
+// be overridden by the environment: VERIF_DBCONF_<NAME>=0|1, and
+// VERIF_DBCONF_HUGE=0|1 sets all six Huge* switches at once.
+var (
+	vbHugeProofAmount    = vbSwitch("HUGE_PROOF_AMOUNT", true)     // cashu.Proof.Amount (SaveProofs, AddPendingProofs)
+	vbHugeSigAmount      = vbSwitch("HUGE_SIG_AMOUNT", true)       // cashu.BlindedSignature.Amount
+	vbHugeMintExpiry     = vbSwitch("HUGE_MINT_EXPIRY", true)      // storage.MintQuote.Expiry
+	vbHugeMeltExpiry     = vbSwitch("HUGE_MELT_EXPIRY", true)      // storage.MeltQuote.Expiry
+	vbHugeMeltAmountMsat = vbSwitch("HUGE_MELT_AMOUNT_MSAT", true) // storage.MeltQuote.AmountMsat
+	vbHugeKeysetFee      = vbSwitch("HUGE_KEYSET_FEE", true)       // storage.DBKeyset.InputFeePpk
 	// UpdateMeltQuote has no requires tying preimage to state; with false the
 	// generator passes any preimage with any (legal) state.
-	vbMeltPreimageOnlyWhenPaid = false
+	vbMeltPreimageOnlyWhenPaid = vbSwitch("PREIMAGE_ONLY_WHEN_PAID", false)
+	// false: per-keyset totals may exceed 2^63-1 (two amounts of 2^62 in one
+	// keyset); true: at most one 2^62 amount per keyset id is generated.
+	vbNoKeysetSumOverflow = vbSwitch("NO_KEYSET_SUM_OVERFLOW", false)
 )
+
+func vbSwitch(name string, def bool) bool {
+	if strings.HasPrefix(name, "HUGE_") {
+		if v := os.Getenv("VERIF_DBCONF_HUGE"); v == "0" || v == "1" {
+			def = v == "1"
+		}
+	}
+	if v := os.Getenv("VERIF_DBCONF_" + name); v == "0" || v == "1" {
+		return v == "1"
+	}
+	return def
+}
 
 const vbHuge = uint64(1) << 63
 
@@ -174,12 +193,19 @@ var (
 // interpretation of ln.fee
 func vbLnFee(x uint64) uint64 { return x % 3 }
 
+var vbYCache = map[string]string{}
+
 func vbYof(secret string) string {
+	if y, ok := vbYCache[secret]; ok {
+		return y
+	}
 	Y, err := crypto.HashToCurve([]byte(secret))
 	if err != nil {
 		panic(err)
 	}
-	return hex.EncodeToString(Y.SerializeCompressed())
+	y := hex.EncodeToString(Y.SerializeCompressed())
+	vbYCache[secret] = y
+	return y
 }
 
 func vbInitPools() {
@@ -345,9 +371,8 @@ type vbH struct {
 	trace    []string
 	cases    int
 	reads    int
-	fails    []vbFailure
+	fails    []vbFailure // every distinct witness; cut to 8 when printed
 	seen     map[string]bool
-	dropped  int
 	diverged bool
 }
 
@@ -357,15 +382,10 @@ func (h *vbH) fail(witness, format string, a ...any) {
 	}
 	h.seen[witness] = true
 	tr := strings.Join(h.trace, "; ")
-	if len(tr) > 1400 {
-		tr = "..." + tr[len(tr)-1400:]
+	if len(tr) > 900 {
+		tr = "..." + tr[len(tr)-900:]
 	}
 	msg := fmt.Sprintf("seed=%d seq=%d step=%d ops=[%s] :: %s", h.seed, h.seq, h.step, tr, fmt.Sprintf(format, a...))
-	if len(h.fails) >= 8 {
-		h.dropped++
-		fmt.Printf("VERIF-BOUNDED-DROPPED %s: %s\n", witness, msg)
-		return
-	}
 	h.fails = append(h.fails, vbFailure{Witness: witness, Msg: msg})
 }
 
@@ -647,7 +667,9 @@ func (h *vbH) chkTotal(name string, get func() (map[string]uint64, error), want 
 		sum.Add(sum, new(big.Int).SetUint64(a))
 	}
 	if sum.Cmp(want) != 0 {
-		vbVal(&v, "sum", "%s(): mapsum(r0)=%s (r0=%v), want ghost total %s", name, sum, r, want)
+		// own: the rows the view sums over are compared one by one through the
+		// other getters, so a wrong total with right rows is the getter's (view's) deviation
+		vbOwn(&v, "sum", "%s(): err == nil but mapsum(r0)=%s (r0=%v), want ghost total %s", name, sum, r, want)
 	}
 	return v
 }
@@ -887,8 +909,18 @@ func (h *vbH) genProofs(tab map[string]storage.DBProof) (cashu.Proofs, string) {
 		ps = nil
 	}
 	var d []string
+	has62 := map[string]bool{}
+	for _, r := range tab {
+		has62[r.Id] = has62[r.Id] || r.Amount >= 1<<62
+	}
 	for _, i := range idx {
 		p := cashu.Proof{Amount: h.amount(vbAmounts, vbHugeProofAmount), Id: vbPick(h, vbKeysetIds), Secret: vbSecrets[i], C: vbPick(h, vbCs), Witness: vbPick(h, vbWitnesses)}
+		if vbNoKeysetSumOverflow && p.Amount == 1<<62 {
+			if has62[p.Id] {
+				p.Amount = 1
+			}
+			has62[p.Id] = true
+		}
 		ps = append(ps, p)
 		d = append(d, fmt.Sprintf("s%d:%s:%s:%q:%q", i, vbAmt(p.Amount), p.Id, p.C, p.Witness))
 	}
@@ -1006,9 +1038,19 @@ func (h *vbH) opSaveBlindSignatures() {
 	cond, huge := true, false
 	sum := new(big.Int)
 	seen := map[string]bool{}
+	has62 := map[string]bool{}
+	for _, r := range h.m.sig {
+		has62[r.Id] = has62[r.Id] || r.Amount >= 1<<62
+	}
 	for _, i := range idx {
 		s := cashu.BlindedSignature{Amount: h.amount(vbAmounts, vbHugeSigAmount), C_: vbPick(h, []string{"C0", "C1"}), Id: vbPick(h, vbKeysetIds),
 			DLEQ: &cashu.DLEQProof{E: vbPick(h, vbDleqStrs), S: vbPick(h, vbDleqStrs), R: "r-not-stored"}}
+		if vbNoKeysetSumOverflow && s.Amount == 1<<62 {
+			if has62[s.Id] {
+				s.Amount = 1
+			}
+			has62[s.Id] = true
+		}
 		sigs = append(sigs, s)
 		Bs = append(Bs, vbB_s[i])
 		d = append(d, fmt.Sprintf("%s:%s:%s:%s:%q:%q", vbB_s[i], vbAmt(s.Amount), s.Id, s.C_, s.DLEQ.E, s.DLEQ.S))
@@ -1136,7 +1178,9 @@ func (h *vbH) opSaveMeltQuote() {
 	if (err == nil) != !exists {
 		tag := ""
 		if err != nil {
-			tag = vbHugeTag(mq.Expiry >= vbHuge, "Expiry") + vbHugeTag(mq.AmountMsat >= vbHuge, "AmountMsat")
+			if tag = vbHugeTag(mq.Expiry >= vbHuge, "Expiry"); tag == "" {
+				tag = vbHugeTag(mq.AmountMsat >= vbHuge, "AmountMsat")
+			}
 		}
 		h.fail("SaveMeltQuote/err-iff"+tag, "err=%v but !old(db.melt)[mq.Id]=%v", err, !exists)
 	}
@@ -1389,13 +1433,28 @@ func TestVerifBoundedDBConf(t *testing.T) {
 	for _, o := range vbOps {
 		cs = append(cs, fmt.Sprintf("%s=%d", o.name, counts[o.name]))
 	}
-	t.Logf("seed=%d sequences=%d ops/sequence=%d checked calls=%d (+%d read-back getter calls); per method: %s", seed, nseq, nops, h.cases, h.reads, strings.Join(cs, " "))
-	if h.fails == nil {
-		h.fails = []vbFailure{}
+	t.Logf("seed=%d sequences=%d ops/sequence=%d checked calls=%d (getter calls incl. read-back: %d); per method: %s", seed, nseq, nops, h.cases, h.reads, strings.Join(cs, " "))
+	// at most 8 failures: witnesses that are not about a >= 2^63 argument first
+	sort.SliceStable(h.fails, func(a, b int) bool {
+		return !strings.Contains(h.fails[a].Witness, "#") && strings.Contains(h.fails[b].Witness, "#")
+	})
+	kept := h.fails
+	if len(kept) > 8 {
+		kept = kept[:8]
+		for _, f := range h.fails[8:] {
+			fmt.Printf("VERIF-BOUNDED-DROPPED %s: %s\n", f.Witness, f.Msg)
+		}
 	}
-	out, _ := json.Marshal(map[string]any{"cases": h.cases, "failures": h.fails})
+	if kept == nil {
+		kept = []vbFailure{}
+	}
+	out, _ := json.Marshal(map[string]any{"cases": h.cases, "failures": kept})
 	fmt.Printf("VERIF-BOUNDED %s\n", out)
 	if len(h.fails) > 0 {
-		t.Fatalf("%d contract clauses violated (%d more witnesses dropped)", len(h.fails), h.dropped)
+		var ws []string
+		for _, f := range h.fails {
+			ws = append(ws, f.Witness)
+		}
+		t.Fatalf("%d contract clauses violated: %s", len(h.fails), strings.Join(ws, ", "))
 	}
 }
